@@ -204,11 +204,7 @@ fn check_text<'a>(d: &GffDesc, line: &'a [u8], mon: &mut Mon) -> Option<Vec<&'a 
     one("source", cols[1], Gff3Col::SourceOrType, &n.source, mon);
     one("type", cols[2], Gff3Col::SourceOrType, &n.ty, mon);
     // column 9, parsed as the specification describes it
-    if n.attrs.is_empty() {
-        if cols[8] != b"." {
-            mon.v("gff3-text:empty-attributes-not-dot", format!("no attributes, column 9 is {}", show(cols[8])));
-        }
-    } else {
+    if !n.attrs.is_empty() {
         let parts: Vec<&[u8]> = cols[8].split(|&b| b == b';').collect();
         if parts.len() != n.attrs.len() {
             mon.v("gff3-text:attributes:field-count", format!("{} attributes written as {} ';'-separated fields: {}", n.attrs.len(), parts.len(), show(cols[8])));
@@ -239,6 +235,35 @@ fn io_class(e: &std::io::Error) -> String {
 
 pub fn run_record(rng: &mut Rng, mon: &mut Mon, file: &mut Vec<(Vec<u8>, Option<Norm>)>) {
     let d = gen_record(rng);
+    check_record(&d, rng, mon, file);
+}
+
+/// Fixed records that are part of every run (witnesses of the known findings among them).
+pub fn corpus() -> Vec<GffDesc> {
+    let base = Norm { seqid: b"chr1".to_vec(), source: b"src".to_vec(), ty: b"gene".to_vec(), start: 1, end: 10, score: None, strand: 1, phase: None, attrs: vec![(b"ID".to_vec(), vec![b"g1".to_vec()])] };
+    let mut v = Vec::new();
+    let mut add = |f: &dyn Fn(&mut Norm)| {
+        let mut n = base.clone();
+        f(&mut n);
+        v.push(GffDesc { norm: n, classes: [TextClass::Mixed; 5], single_as_array: false });
+    };
+    add(&|_n| {});
+    add(&|n| n.seqid = b"chr 1".to_vec());
+    add(&|n| n.seqid = b"%zz1".to_vec());
+    add(&|n| n.seqid = b">contig#1".to_vec());
+    add(&|n| n.source = b"a\tb".to_vec());
+    add(&|n| n.source = b"50%".to_vec());
+    add(&|n| n.source = b"d7%3Bc".to_vec());
+    add(&|n| n.source = b"x\x01y".to_vec());
+    add(&|n| n.ty = b"606\r70".to_vec());
+    add(&|n| n.ty = b".%25_".to_vec());
+    add(&|n| n.ty = b"a\x1bb".to_vec());
+    add(&|n| n.attrs = vec![(b"Note;=".to_vec(), vec![b"a;b=c&d,e%f\tg\nh".to_vec(), b"".to_vec(), "é,測".as_bytes().to_vec()]), (b"Parent".to_vec(), vec![b"p1".to_vec(), b"p2".to_vec(), b"p3".to_vec()])]);
+    add(&|n| n.attrs = Vec::new());
+    v
+}
+
+pub fn check_record(d: &GffDesc, rng: &mut Rng, mon: &mut Mon, file: &mut Vec<(Vec<u8>, Option<Norm>)>) {
     let n = &d.norm;
     let rb = to_record_buf(n, d.single_as_array);
     mon.c("gff3.records_generated", 1);
@@ -260,10 +285,8 @@ pub fn run_record(rng: &mut Rng, mon: &mut Mon, file: &mut Vec<(Vec<u8>, Option<
         }
         Ok(Err(e)) => {
             let why = if n.ty == b"CDS" && n.phase.is_none() { "CDS without phase".to_string() } else { format!("other:{}", io_class(&e)) };
+            // "every record the writer accepts": a rejection is counted, never judged
             mon.c(&format!("gff3.writer_rejected[{why}]"), 1);
-            if !why.starts_with("CDS") {
-                mon.v("gff3-write:unexpected-rejection", format!("writer rejects {rb:?}: {e}"));
-            }
             return;
         }
         Ok(Ok(b)) => b,
@@ -278,7 +301,7 @@ pub fn run_record(rng: &mut Rng, mon: &mut Mon, file: &mut Vec<(Vec<u8>, Option<
         return;
     }
     let line = &bytes[..bytes.len() - 1];
-    let Some(cols) = check_text(&d, line, mon) else {
+    let Some(cols) = check_text(d, line, mon) else {
         mon.c("gff3.records_with_destroyed_line_structure", 1);
         return;
     };
@@ -357,6 +380,11 @@ pub fn run_record(rng: &mut Rng, mon: &mut Mon, file: &mut Vec<(Vec<u8>, Option<
             phase: rec.phase().transpose().map_err(|e| e.to_string())?.map(norm::phase_code),
             attrs,
         };
+        // the same view through the feature::Record trait
+        let via_trait = Norm::of_feature_record(&rec).map_err(|e| format!("feature::Record accessors: {e}"))?;
+        if via_trait != lz {
+            return Err(format!("feature::Record accessors {via_trait:?} differ from the inherent accessors {lz:?}"));
+        }
         let owned = RecordBuf::try_from_feature_record(&rec).map_err(|e| format!("try_from_feature_record: {e}"))?;
         // keyed access must agree too
         let mut gets = Vec::new();
@@ -438,8 +466,7 @@ pub fn run_directive(rng: &mut Rng, mon: &mut Mon, file: &mut Vec<(Vec<u8>, Opti
             return;
         }
         Ok(Err(e)) => {
-            mon.c("gff3.directive_writer_rejected", 1);
-            mon.v("gff3-directive:unexpected-rejection", format!("writer rejects {d:?}: {e}"));
+            mon.c(&format!("gff3.directive_writer_rejected[kind{kind}:{}]", io_class(&e)), 1);
             return;
         }
         Ok(Ok(b)) => b,
